@@ -801,3 +801,44 @@ def _defined_from(f: Func, name_node, es_kind: str) -> bool:
         else:
             return False
     return False
+
+
+def rule_predscope(ctx, prop: str) -> RuleResult:
+    """A rewrite that permutes the dimensions of a procedure ARGUMENT changes what
+    `stride(arg, d)` means everywhere it is mentioned — in the body and in the procedure's
+    assertions (`preds`).  Every scheduling function that rewrites stride expressions of a
+    declaration which may be an `fnarg` (its scope is `root().body()`, not the rest of the
+    allocating block) must apply the same stride rewrite to the `preds` block."""
+    ix = ctx.ix
+    res = RuleResult("PREDSCOPE")
+    S_ = "src/exo/rewrite/LoopIR_scheduling.py"
+    m = ix.module(S_)
+    n = 0
+    for qn, f in m.funcs.items():
+        if not isinstance(f.node, ast.FunctionDef) or "." in qn:
+            continue
+        whole = [k for k in f.body_nodes() if isinstance(k, ast.Call) and isinstance(k.func, ast.Attribute) and k.func.attr == "body" and "root()" in ast.unparse(k.func.value)]
+        stride_rw = [k for k in f.body_nodes() if isinstance(k, ast.Call) and last_name(k) == "_replace_pats" and any("stride(" in ast.unparse(a) for a in k.args)]
+        if not whole or not stride_rw:
+            continue
+        n += 1
+        res.instances += 1
+        res.nontrivial += 1
+        res.analysed.append(f"{S_}:{qn}")
+        ok = False
+        for loop in f.body_nodes():
+            if isinstance(loop, ast.For) and '"preds"' in ast.unparse(loop.iter).replace("'", '"'):
+                if any(k in stride_rw for b in loop.body for k in ast.walk(b)):
+                    ok = True
+        res.ob(ok)
+        res.sample(f"{qn}: stride expressions of an argument are rewritten in the assertions too: {ok}")
+        if not ok:
+            res.add(
+                Finding("PREDSCOPE", S_, f.lineno, qn, "preds",
+                        f"{qn} rewrites `stride(arg, d)` in the body of the procedure but not in its assertions: after transpose(p, a) the precondition still says "
+                        f"`stride(a, 1) == 1` where the original required it of the dimension that is now dimension 0 — the transposed procedure admits different inputs")
+            )
+    if n < 1:
+        raise AnalysisError("PREDSCOPE: no argument-scope stride rewrite found in LoopIR_scheduling.py")
+    res.floor = 1
+    return res
